@@ -914,12 +914,13 @@ Proof.
   - destruct (go_expr r s e) as [v|] eqn:Ee; [|exact I]. rewrite (go_expr_ext E _ _ _ _ Ee). reflexivity.
 Qed.
 
-Lemma sim_beta_rec f p b v : sim (App (Val (RecV (BNamed f) (BNamed p) b)) (Val v)) (subst f (RecV (BNamed f) (BNamed p) b) (subst p v b)).
+Lemma sim_beta_rec f p b v : f <> p ->
+  sim (App (Val (RecV (BNamed f) (BNamed p) b)) (Val v)) (subst f (RecV (BNamed f) (BNamed p) b) (subst p v b)).
 Proof.
-  intros s w s' [n H]. exists (S (S n)). rewrite eval_S_unfold. unfold eval_step at 1.
+  intros Hfp s w s' [n H]. exists (S (S n)). rewrite eval_S_unfold. unfold eval_step at 1.
   change (eval (S n) (Val v) s) with (RVal v s). cbv iota.
   change (eval (S n) (Val (RecV (BNamed f) (BNamed p) b)) s) with (RVal (RecV (BNamed f) (BNamed p) b) s). cbv iota.
-  cbn [subst']. apply (evals_fuel _ _ _ _ _ (S n) H). lia.
+  cbn [subst']. rewrite (subst_subst_comm p f) by congruence. apply (evals_fuel _ _ _ _ _ (S n) H). lia.
 Qed.
 
 Lemma cs_of_app a b : cs_of (a ++ b)%list = (cs_of a ++ cs_of b)%list.
@@ -957,7 +958,7 @@ Proof.
   rewrite <- close_subst_comm in Hev by (rewrite map_fst_combine by lia; intros Hc; apply Hname; right; exact Hc).
   (* now the applications *)
   cbn [map fold_left].
-  eapply (sim_apps _ _ args (sim_beta_rec name p1 (lams ps body) a1)).
+  eapply (sim_apps _ _ args (sim_beta_rec name p1 (lams ps body) a1 ltac:(intros ->; apply Hname; left; reflexivity))).
   rewrite !subst_lams by (intros Hc; first [apply Hp1, Hc | apply Hname; right; exact Hc]).
   apply (sim_lams ps args _ Hnd2 Hlps). exact Hev.
 Qed.
